@@ -147,6 +147,14 @@ class Fn:
                 if u is None or u[1] is None:
                     return n
                 dnode, val = u
+                # a definition that reads object state (self.x...) stands for that state only while nothing re-assigns it
+                for sub in ast.walk(val):
+                    if isinstance(sub, ast.Attribute):
+                        d = dotted(sub)
+                        if d and d.startswith("self."):
+                            btw = fn.cfg.between(dnode.id, at.id, NONEXC) if hasattr(at, "id") else set()
+                            if any(an.id in btw and an.id not in (dnode.id, at.id) for an, _ in fn.assigns(d)):
+                                return n
                 return fn.expand(copy.deepcopy(val), dnode, depth + 1, keep)
 
             def visit_Lambda(self, n):
